@@ -12,6 +12,8 @@
 // See the License for the specific language governing permissions and
 // limitations under the License.
 
+// +build !verif
+
 #include "textflag.h"
 
 #define preparingG 1
